@@ -69,6 +69,13 @@ Theorem c01_parse_pair : forall reg s a b, trim_space s = a ++ tilde :: b -> ~ I
 Proof. exact parse_range_pair. Qed.
 Print Assumptions c01_parse_pair.
 
+(* "A~B~C...": the code takes the two-part branch only for exactly two parts, so anything after a
+   second "~" is ignored, B included - the range is [A, MAX) *)
+Theorem c01_parse_many : forall reg s a b c, trim_space s = a ++ tilde :: b ++ tilde :: c -> ~ In tilde a -> ~ In tilde b ->
+  parse_range reg s = match lookup_level reg (map to_upper a) with Some mn => Some (mn, lvl_max) | None => None end.
+Proof. exact parse_range_many. Qed.
+Print Assumptions c01_parse_many.
+
 (* the level table regenerated from the source on this run is well formed *)
 Theorem c01_generated_table_wf : table_wf_b = true.
 Proof. exact table_wf. Qed.
